@@ -26,7 +26,8 @@ class Registry(V.Family):
     driver_pkg = "container"
     monitor = ("ContainerTrace.tla", "ContainerTrace.cfg")
     monitor_constants = FIXED
-    step_keys = ("act", "S", "c", "v", "nm", "meta", "c2", "v2", "nm2", "meta2", "o", "k", "amt")
+    step_keys = ("act", "S", "c", "v", "nm", "meta", "c2", "v2", "nm2", "meta2", "kb", "ash", "o", "k", "amt")
+    reset_keys = ("n", "scale", "src", "verlen")
     assume = COMMON_ASSUME + [
         "the Container alias TLD is registered by the committee before Container is deployed (the deploy transaction of "
         "harness/chain carries no committee witness for n in {3,7}); alias domains never expire during a scenario (10 years)",
@@ -91,7 +92,7 @@ class Roster(V.Family):
     driver_pkg = "container"
     monitor = ("ContainerRosterTrace.tla", "ContainerRosterTrace.cfg")
     monitor_constants = FIXED
-    step_keys = ("act", "S", "c", "v", "from", "len", "bk", "dup", "rs", "m", "sigs")
+    step_keys = ("act", "S", "c", "v", "from", "len", "bk", "dup", "ash", "rs", "m", "sigs")
     reset_keys = ("n", "src")
     assume = COMMON_ASSUME + [
         "roster keys are real secp256r1 keys (chain.DetKey); signatures are real ECDSA/SHA-256 signatures (RFC 6979) of the message, "
